@@ -58,6 +58,7 @@ ASSUMPTIONS = [
 ]
 
 ALLOW_SHORT_SCALAR = False    # set by run(): finding listed?
+ALLOW_IMG_CAST = False
 NONSCALAR_TEMP = "c02_vec"
 SCALAR_TEMP = "c02_tsc"
 TDMS_FIXTURES = ["fmt-tdms_minimal_2016", "fmt-tdms_fl-image_2016",
@@ -70,6 +71,7 @@ RECTIFIED = {("experiment", "event count"), ("experiment", "run identifier"),
 F_NONSLICE = "C02-nonsliceable-source"
 F_UINT = "C02-uint-cast-negative"
 F_SCALAR = "C02-short-scalar-indexerror"
+F_IMG = "C02-image-cast-uint8"
 # features the writer stores as unsigned integers (writer.FEATURES_UINT32/64)
 UINT_FEATS = {"fl1_max", "fl1_npeaks", "fl2_max", "fl2_npeaks", "fl3_max",
               "fl3_npeaks", "index", "ml_class", "nevents", "frame",
@@ -80,6 +82,13 @@ F_SHORT = "C02-short-features-indexerror"
 # --------------------------------------------------------------------------
 # helpers
 # --------------------------------------------------------------------------
+def uint8_exact(ev):
+    """can the event be stored as uint8 without loss?"""
+    import numpy as np
+    a = np.asarray(ev, dtype=np.float64)
+    return bool(np.all((a >= 0) & (a <= 255) & (a == np.floor(a))))
+
+
 def zl(xs):
     xs = list(xs)
     return common.zlist(xs) if xs else "(@nil Z)"
@@ -298,6 +307,22 @@ def build_source(src, workdir):
                 [[[qrng.randint(-40, 40) / 8 for _ in range(gen.IMG_SHAPE[1])]
                   for _ in range(gen.IMG_SHAPE[0])] for _ in range(n)],
                 dtype=np.float32)
+        if src.get("imgwide"):
+            # image data that do not fit uint8 (uint16 camera, float
+            # background): the writer stores images as uint8
+            irng = random.Random(src["seed"] + 37)
+            if "image" in spec["features"]:
+                spec["features"]["image"] = np.array(
+                    [[[irng.choice([0, 7, 255, 256, 300, 2261])
+                       for _ in range(gen.IMG_SHAPE[1])]
+                      for _ in range(gen.IMG_SHAPE[0])] for _ in range(n)],
+                    dtype=np.uint16)
+            if "image_bg" in spec["features"]:
+                spec["features"]["image_bg"] = np.array(
+                    [[[irng.choice([-24, -4, 0, 20, 23, 800, 2044, 2400]) / 8
+                       for _ in range(gen.IMG_SHAPE[1])]
+                      for _ in range(gen.IMG_SHAPE[0])] for _ in range(n)],
+                    dtype=np.float32)
         if src.get("neg_uint"):
             # a feature the writer stores as uint32 holding negative values
             # (as the int16 fl2_max of tdms measurements does)
@@ -314,6 +339,10 @@ def build_source(src, workdir):
             if src.get("fl"):
                 for k, v in spec["meta"]["fluorescence"].items():
                     root.config["fluorescence"][k] = v
+            for key, val in (src.get("badmeta") or {}).items():
+                sec, kk = key.split(":")
+                if val is not None:
+                    root.config[sec][kk] = val
             lrng = random.Random(src["seed"] + 7)
             truth = dict(logs=gen_logs(lrng), tables=gen_tables(lrng))
             for name, lines in truth["logs"].items():
@@ -350,6 +379,27 @@ def build_source(src, workdir):
                 gen.write_spec(path, spec)
                 write_raw_logs_tables(path, truth["logs"], truth["tables"],
                                       empty_log)
+                if src.get("imgwide"):
+                    import h5py
+                    with h5py.File(path, "a") as h5:
+                        ev = h5["events"]
+                        for f in ("image", "image_bg"):
+                            if f in ev and f in spec["features"]:
+                                v = spec["features"][f]
+                                del ev[f]
+                                ev.create_dataset(
+                                    f, data=v, chunks=True,
+                                    maxshape=(None,) + v.shape[1:])
+                if src.get("badmeta"):
+                    # roi size / samples per event that disagree with the
+                    # stored data, or are missing (rectify_metadata's job)
+                    import h5py
+                    with h5py.File(path, "a") as h5:
+                        for key, val in src["badmeta"].items():
+                            if val is None:
+                                h5.attrs.pop(key, None)
+                            else:
+                                h5.attrs[key] = val
                 if src.get("wide"):
                     # store the wide features with raw h5py so that the source
                     # does not depend on the writer under test
@@ -455,6 +505,9 @@ def apply_filters(ds, mask, flt):
             cfgf["remove invalid events"] = True
         if flt.get("limit"):
             cfgf["limit events"] = int(flt["limit"])
+        if flt.get("disable"):
+            # filtering switched off: all events, whatever else is set
+            cfgf["enable filters"] = False
         if flt.get("polygon") and len(fsc) >= 2:
             fx, fy = fsc[-1], fsc[-2]
             x = np.asarray(ds[fx][:], dtype=float)
@@ -484,6 +537,11 @@ def apply_filters(ds, mask, flt):
             ds.config["filtering"]["polygon filters"] = []
             ds.apply_filter()
     fall = np.array(ds.filter.all, dtype=bool)
+    if flt and flt.get("disable") and \
+            ds.config["filtering"]["enable filters"] is False:
+        # the property's "all events when filtering is off", stated
+        # independently of what dclab computes
+        fall = np.ones(len(ds), dtype=bool)
     return fall, bool(np.any(fall != np.array(ds.filter.manual, dtype=bool)))
 
 
@@ -601,13 +659,23 @@ def run_export_case(case, workdir):
                 rows.append(stok([float(arr[c][r]) for c in cols]
                                  if cols else np.asarray(arr[r]).tolist()))
             return rows
-        src_logs = [[stok(ln) for ln in ds.logs[nm]] for nm in log_names]
+        def lbytes(ln):
+            return list(ln if isinstance(ln, bytes) else
+                        str(ln).encode("utf-8"))
+        src_logs = [[lbytes(ln) for ln in ds.logs[nm]] for nm in log_names]
         src_tabs = [table_tokens(ds.tables[nm]) for nm in tab_names]
 
         def texts(lst):
             return common.clist("(%d, %s)" % (i, zl(t))
                                 for i, t in enumerate(lst)) if lst \
                 else "(@nil (Z * list Z))"
+
+        def logtexts(lst):
+            return common.clist(
+                "(%d, %s)" % (i, common.clist(zl(ln) for ln in t) if t
+                              else "(@nil (list Z))")
+                for i, t in enumerate(lst)) if lst \
+                else "(@nil (Z * list (list Z)))"
         ch_src = ds.config["fluorescence"].get("channel count") \
             if "fluorescence" in ds.config else None
         coq = "(%s, (%d, %s), (%d, %d, %d), (%s, %s, %d), (%s, %s), (%s, %s))" % (
@@ -618,7 +686,7 @@ def run_export_case(case, workdir):
             zl([stok(mid)] if rid_src is None and mid is not None
                          else []),
             stok(sample_src) if sample_src is not None else 0,
-            texts(src_logs), texts(src_tabs),
+            logtexts(src_logs), texts(src_tabs),
             zl([int(ch_src)] if ch_src is not None else []),
             zl([names[f] for f in ("fl1_max", "fl2_max", "fl3_max")
                 if f in names]))
@@ -676,6 +744,8 @@ def run_export_case(case, workdir):
         # --- read back: raw h5py -> flat; dclab -> oracle -----------------
         flat = []
         fails = []
+        part_diff = {}
+        part_fail_msgs = []
         with h5py.File(out, "r") as h5:
             count = h5.attrs.get("experiment:event count")
             flat += [0, int(count) if count is not None else -1]
@@ -711,6 +781,11 @@ def run_export_case(case, workdir):
                     else:
                         want = [src_tok[(f, key)][i] for i in e_idx]
                     if toks != want:
+                        part_diff[(f, key)] = (
+                            [i for i in range(len(want)) if toks[i] != want[i]]
+                            if len(toks) == len(want) else
+                            ("len", len(toks), len(want), len(idx)))
+                        part_fail_msgs.append(len(fails))
                         fails.append(
                             "h5py: feature %s%s holds %d events, expected the "
                             "%d selected ones%s" % (
@@ -752,12 +827,11 @@ def run_export_case(case, workdir):
                 key = prefix + nm
                 lines = []
                 if want_logs and key in hlogs:
-                    try:
-                        lines = [stok(ln.decode("utf-8") if isinstance(
-                            ln, bytes) else ln) for ln in hlogs[key][:]]
-                    except UnicodeDecodeError:
-                        lines = [-5]
-                flat += [len(lines)] + lines
+                    # the stored bytes (fixed-length strings, NUL padded)
+                    lines = [lbytes(ln) for ln in hlogs[key][:]]
+                flat += [len(lines)]
+                for ln in lines:
+                    flat += [len(ln)] + ln
             for nm in tab_names:
                 key = prefix + nm
                 rows = table_tokens(htabs[key][:]) \
@@ -828,27 +902,58 @@ def run_export_case(case, workdir):
                                      case.get("tables", False), truth, prefix)
                 if m:
                     fails.append(m)
-        except Exception as e:
+        except BaseException as e:  # e.g. OldFormatNotSupportedError
+            if isinstance(e, (KeyboardInterrupt, SystemExit)):
+                raise
             fails.append("exported file cannot be read back: %r" % (e,))
         if fails:
             res["fail"] = "; ".join(fails[:4])
+            # which messages speak about which feature
+            def names_only(feats_ok, allow_count=False):
+                for m in fails:
+                    if any(("feature %s " % f) in m or ("feature %s/" % f) in m
+                           or ("feature %s:" % f) in m for f in feats_ok):
+                        continue
+                    if allow_count and (m.startswith("event count attribute")
+                                        or m.startswith("len(exported)")):
+                        continue
+                    return False
+                return True
+
+            def selected_values(f):
+                return np.asarray(troot[f][:])[rootmap[exp_idx]]
             # the writer casts some features to unsigned integers: negative
             # source values (tdms fixture: fl2_max = -17) do not survive
             lossy = [f for f in uniq if f in UINT_FEATS and kind_of(f) == 0
-                     and len(exp_idx) and
-                     (np.asarray(ds[f][:])[exp_idx] < 0).any()]
-            # same cause as F_SHORT, but the tdms image column answers an
-            # index beyond its length with a dummy image instead of raising
-            if (filtered and lens and lmin < n and len(idx)
-                    and (skip or min(lens) == max(lens))
-                    and idx.max() >= lmin and root_format(ds) == "tdms"
-                    and "image" in uniq):
+                     and len(exp_idx) and (selected_values(f) < 0).any()]
+            # images are stored as uint8: other source values saturate
+            castimg = [f for f in uniq if f in ("image", "image_bg")
+                       and src_dtype.get((f, "")) is not None
+                       and src_dtype[(f, "")] != np.uint8]
+            short_image = (filtered and lens and lmin < n and len(idx)
+                           and (skip or min(lens) == max(lens))
+                           and idx.max() >= lmin
+                           and root_format(ds) == "tdms" and "image" in uniq)
+            if short_image and names_only(["image"], allow_count=True) and \
+                    part_diff.get(("image", ""), [None])[0] == "len" and \
+                    part_diff[("image", "")][1] == len(idx):
+                # same cause as F_SHORT, but the tdms image column answers an
+                # index beyond its length with a dummy image instead of
+                # raising: every selected event was exported
                 res["finding"] = F_SHORT
                 res["coq"] = None      # the model raises IndexError here
-            elif lossy and all(any(("feature %s " % f) in m or
-                                 ("feature %s:" % f) in m for f in lossy)
-                             for m in fails):
+            elif lossy and names_only(lossy) and all(
+                    isinstance(dv, list) and f in lossy and all(
+                        selected_values(f)[q] < 0 for q in dv)
+                    for (f, _k), dv in part_diff.items()):
                 res["finding"] = F_UINT
+                res["coq"] = None      # the model keeps values unchanged
+            elif castimg and names_only(castimg) and all(
+                    isinstance(dv, list) and f in castimg and all(
+                        not uint8_exact(truth_event(f, "", exp_idx[q]))
+                        for q in dv)
+                    for (f, _k), dv in part_diff.items()):
+                res["finding"] = F_IMG
                 res["coq"] = None      # the model keeps values unchanged
         nons = sum(len(exp_idx) for f in uniq if kind_of(f) >= 2)
         res["nontrivial"] = bool(nons >= 1 or (uniq and len(exp_idx) >= 2))
@@ -1130,7 +1235,7 @@ def run_sff_case(case, workdir):
         parts = {"": [gen.random_contour(rng) for _ in range(n)]}
     else:
         parts = {"": np.array([[rng.randint(-9, 9) / 4 for _ in range(3)]
-                               for _ in range(n)])}
+                               for _ in range(n)], dtype=np.float32)}
     wrap = (lambda a: IntOnly(a)) if (route == 1 and feat != "contour") \
         else (lambda a: a)
     data = ({k: wrap(v) for k, v in parts.items()} if feat == "trace"
@@ -1161,6 +1266,12 @@ def run_sff_case(case, workdir):
             else:
                 got = [tok(r) for r in ev[feat][:]]
             flat += [0, trrank[key], len(got)] + got
+            if feat in ("trace", NONSCALAR_TEMP):
+                dso = ev[feat][key] if feat == "trace" else ev[feat]
+                if np.dtype(dso.dtype) != arr.dtype and fail is None:
+                    fail = ("store_filtered_feature(%s, route %d) stored %s, "
+                            "the source holds %s" % (feat, route, dso.dtype,
+                                                     arr.dtype))
             if got != [src[i] for i in idx] and fail is None:
                 fail = ("store_filtered_feature(%s, route %d): %d events "
                         "stored, expected the %d selected ones in order" % (
@@ -1176,6 +1287,55 @@ def run_sff_case(case, workdir):
                                     common.blist(filt))
     return dict(flat=flat, coq=coq, fail=fail, finding=None, nontrivial=True,
                 info={})
+
+
+# --------------------------------------------------------------------------
+# images are stored as uint8 (finding C02-image-cast-uint8): the stored pixels
+# against the model's conversion
+# --------------------------------------------------------------------------
+def run_imgcast_case(case, workdir):
+    import warnings
+    import numpy as np
+    import h5py
+    import dclab
+    warnings.simplefilter("ignore")
+    os.makedirs(workdir, exist_ok=True)
+    rng = random.Random(case["seed"])
+    n, feat = 5, case["feat"]
+    if case["dtype"] == "uint16":
+        arr = np.array([[[rng.choice([0, 1, 254, 255, 256, 300, 2261, 65535])
+                          for _ in range(4)] for _ in range(3)]
+                        for _ in range(n)], dtype=np.uint16)
+    else:
+        arr = np.array([[[rng.choice([-24, -4, -1, 0, 3, 20, 23, 2039, 2040,
+                                      2044, 2400]) / 8
+                          for _ in range(4)] for _ in range(3)]
+                        for _ in range(n)], dtype=np.float32)
+    ds = dclab.new_dataset({feat: arr, "deform": np.arange(1, n + 1) / 8})
+    ds.config["setup"]["software version"] = "verifgen 1.0"
+    sel = sorted(rng.sample(range(n), 3))
+    m = np.zeros(n, dtype=bool)
+    m[sel] = True
+    ds.filter.manual[:] = m
+    ds.apply_filter()
+    out = os.path.join(workdir, "cast.rtdc")
+    ds.export.hdf5(out, features=[feat], filtered=case["filtered"],
+                   override=True)
+    want = arr[sel] if case["filtered"] else arr
+    with h5py.File(out, "r") as h5:
+        got = h5["events"][feat][:]
+    flat = [int(v) for v in got.ravel()]
+    coq = zl(int(round(float(v) * 8)) for v in want.ravel())
+    fail = None
+    if got.shape != want.shape or not np.array_equal(
+            got.astype(np.float64), want.astype(np.float64)):
+        fail = ("feature %s (%s): exported values differ from the selected "
+                "source values (source range %s..%s, stored %s..%s as %s)" % (
+                    feat, arr.dtype, want.min(), want.max(), got.min(),
+                    got.max(), got.dtype))
+    return dict(flat=flat, coq=coq, fail=fail,
+                finding=F_IMG if fail and got.shape == want.shape else None,
+                nontrivial=True, info={})
 
 
 # --------------------------------------------------------------------------
@@ -1412,6 +1572,21 @@ def gen_export_case(rng, thorough=False):
             src["wide"] = True          # int32 traces, a float32 scalar
         if t != "basin" and rng.random() < 0.2:
             src["qpi"] = True           # qpi_pha: float32 image feature
+        if t in ("hdf5", "dict", "hier-hdf5", "hier-dict") and \
+                rng.random() < 0.3:
+            bm = {}
+            r4 = rng.random()
+            if r4 < 0.6:
+                bm["imaging:roi size x"] = rng.choice([None, 99, 5]) \
+                    if t.endswith("hdf5") else rng.choice([99, 5])
+                bm["imaging:roi size y"] = rng.choice([77, 3])
+            if r4 > 0.3:
+                bm["fluorescence:samples per event"] = rng.choice([7, 1000])
+            src["badmeta"] = bm
+        if ALLOW_IMG_CAST and t in ("hdf5", "dict", "hier-hdf5") and \
+                ("image" in kinds or "image_bg" in kinds) and \
+                rng.random() < 0.25:
+            src["imgwide"] = True
         nn = n
         if t.startswith("hier-"):
             src["parent_drop"] = sorted(rng.sample(range(n),
@@ -1508,6 +1683,8 @@ def gen_filters(rng):
         flt["limit"] = rng.randint(1, 12)
     if not flt:
         flt["box"] = [0.2, 0.8]
+    if rng.random() < 0.2:
+        flt["disable"] = True
     return flt
 
 
@@ -1596,9 +1773,10 @@ def gen_tsv_real_case(rng):
 # driver
 # --------------------------------------------------------------------------
 RUNNERS = {"export": run_export_case, "sff": run_sff_case,
-           "override": run_override_case, "stacks": run_stacks_case,
+           "override": run_override_case, "imgcast": run_imgcast_case, "stacks": run_stacks_case,
            "tsv": run_tsv_case}
-MODEL_FN = {"export": "export_full_flat", "sff": "sff_flat", "stacks": "stacks_flat",
+MODEL_FN = {"export": "export_full_flat", "sff": "sff_flat",
+            "imgcast": "cast_flat", "stacks": "stacks_flat",
             "tsv": "tsv_flat"}
 HEADER = ("From Coq Require Import ZArith List.\nImport ListNotations.\n"
           "From Verif Require Import Model.C02.\n")
@@ -1609,7 +1787,7 @@ def _work(args):
     wd = os.path.join(scratch, "case%05d" % i)
     try:
         r = RUNNERS[case["kind"]](case, wd)
-    except Exception as e:
+    except BaseException as e:      # dclab has errors deriving BaseException
         import traceback
         r = dict(flat=None, coq=None, fail=None, finding=None,
                  nontrivial=False, info={},
@@ -1640,19 +1818,53 @@ def run_cases(cases, scratch):
     import hdf5plugin  # noqa: F401
     ctx = mp.get_context("fork")
     jobs = [(i, c, scratch) for i, c in enumerate(cases)]
+    # a deadline per result: a worker that dies (or hangs) must not block
+    # the check for ever; what is missing is reported as a crashed case
+    results = [None] * len(jobs)
+    per_case = 240
     with ctx.Pool(min(common.NCPU, 14)) as pool:
-        return pool.map(_work, jobs, chunksize=4)
+        it = pool.imap(_work_indexed, jobs)
+        lost = None
+        for _ in range(len(jobs)):
+            try:
+                i, r = it.next(timeout=per_case)
+            except mp.TimeoutError:
+                lost = "no result within %d s (worker lost or hanging)" % \
+                    per_case
+                break
+            except StopIteration:
+                break
+            results[i] = r
+        if lost:
+            pool.terminate()
+    for i, r in enumerate(results):
+        if r is None:
+            results[i] = dict(flat=None, coq=None, fail=None, finding=None,
+                              nontrivial=False, info={},
+                              crash=lost or "no result")
+    return results
+
+
+def _work_indexed(args):
+    return args[0], _work(args)
 
 
 def run(run):
-    global ALLOW_SHORT_SCALAR
+    global ALLOW_SHORT_SCALAR, ALLOW_IMG_CAST
     rng = run.rng
     ALLOW_SHORT_SCALAR = F_SCALAR in run.finding_ids()
+    ALLOW_IMG_CAST = F_IMG in run.finding_ids()
     cases = load_corpus(run.finding_ids())
     run.count("corpus", len(cases))
     n_exp, n_st, n_tsv, n_real = ((1500, 1500, 400, 40) if run.thorough
                                   else (150, 160, 50, 6))
     cases += sff_grid(rng)
+    if ALLOW_IMG_CAST:
+        cases += [dict(kind="imgcast", feat=f, dtype=dt, filtered=fl,
+                       seed=rng.randint(0, 10 ** 6))
+                  for f, dt in (("image", "uint16"), ("image_bg", "float32"),
+                                ("image", "float32"))
+                  for fl in (True, False)]
     cases += [dict(kind="override", what=w, nosuffix=ns, seed=rng.randint(0, 99))
               for w in ("hdf5", "tsv") for ns in (False, True)]
     cases += [gen_export_case(rng, run.thorough) for _ in range(n_exp)]
@@ -1660,17 +1872,21 @@ def run(run):
     cases += [gen_tsv_case(rng, run.thorough) for _ in range(n_tsv)]
     cases += [gen_tsv_real_case(rng) for _ in range(n_real)]
     results = run_cases(cases, run.scratch)
-    by_kind = {"export": [], "stacks": [], "tsv": [], "sff": []}
+    by_kind = {"export": [], "stacks": [], "tsv": [], "sff": [],
+               "imgcast": []}
     for c, r in zip(cases, results):
         run.record_case(c, r["nontrivial"])
         run.count("kind:" + c["kind"])
+        if c["kind"] in ("export", "tsv") and \
+                (c.get("filters") or {}).get("disable"):
+            run.count("%s:enable-filters-off" % c["kind"])
         if c["kind"] in ("export", "tsv") and c.get("filters"):
             run.count("%s:real-filter:%s" % (
                 c["kind"], "differs-from-manual"
                 if r.get("info", {}).get("real_filter") else "same"))
         if c["kind"] == "export":
             run.count("src:" + c["src"]["type"])
-            for opt in ("wide", "qpi"):
+            for opt in ("wide", "qpi", "imgwide", "badmeta"):
                 if c["src"].get(opt):
                     run.count("src-opt:" + opt)
             if c["src"].get("levels", 1) >= 2:
